@@ -76,7 +76,37 @@ def gen_mixed_mesh(tape):
             "order": tape.choice(["C", "F"]), "mixed": True}
 
 
+def gen_crs(tape):
+    """source grid in UTM 32N, target grid in web-mercator coordinates over the same region (or the other way round): the
+    adapter has to bring the target locations into the source's reference system first; small and large targets"""
+    from pyproj import Transformer
+    utm, merc = "EPSG:32632", "EPSG:3857"
+    sp = tape.choice([100.0, 250.0])
+    n1, n2 = tape.rng_int(10, 20), tape.rng_int(8, 16)
+    ox, oy = 500000.0 + tape.choice([0.0, 12345.5, -80000.0]), 5700000.0 + tape.choice([0.0, 4321.25, 90000.0])
+    a = {"type": "uniform", "dims": [n1, n2], "order": tape.choice(["F", "C"]), "rev": tape.chance(1, 2),
+         "inc": [not tape.chance(1, 3), not tape.chance(1, 3)], "loc": tape.choice(["cells", "points"]),
+         "spacing": [sp, sp], "origin": [ox, oy], "crs": utm}
+    tr = Transformer.from_crs(utm, merc)
+    x0, y0 = tr.transform(ox, oy)
+    x1, y1 = tr.transform(ox + (n1 - 1) * sp, oy + (n2 - 1) * sp)
+    big = tape.chance(2, 3)
+    m1, m2 = (tape.rng_int(34, 52), tape.rng_int(33, 47)) if big else (tape.rng_int(5, 24), tape.rng_int(5, 24))
+    b = {"type": "uniform", "dims": [m1, m2], "order": tape.choice(["F", "C"]), "rev": tape.chance(1, 2),
+         "inc": [not tape.chance(1, 3), not tape.chance(1, 3)], "loc": tape.choice(["cells", "points"]),
+         "spacing": [round((x1 - x0) / (m1 - 1), 3), round((y1 - y0) / (m2 - 1), 3)], "origin": [round(x0, 3), round(y0, 3)],
+         "crs": merc}
+    if tape.chance(1, 4):
+        a, b = b, a        # (a large source, target locations brought into web-mercator coordinates)
+    return {"engine": "R", "method": "nearest", "src": a, "dst": b, "rel": "other", "smask": tape.weighted([("none", 3), ("partial", 1)]),
+            "ctor_mask": False, "dmask": tape.weighted([("FLEX", 3), ("partial", 1)]), "mbits": [tape.draw(4) == 0 for _ in range(160)],
+            "npub": 2, "coef": [[tape.choice([0.0, 1.0, 7.0])] + [tape.choice([1.0, -2.0, 0.5, 10.0]) for _ in range(3)]
+                                for _ in range(3)], "sibling": False, "late_mask": False, "crs_pair": [a["crs"], b["crs"]]}
+
+
 def generate(tape, tier="quick"):
+    if tape.chance(1, 40):
+        return gen_crs(tape)
     method = tape.weighted([("nearest", 5), ("linear", 3), ("linear_fill", 2)])
     if method == "nearest":
         dim = tape.weighted([(2, 5), (1, 2), (3, 2)])
@@ -159,6 +189,14 @@ def execute(sc):
     sl, sshape, sorder = locations(ssp, GS)
     dl, dshape, dorder = locations(dsp, GD)
     ns, nd = len(sl), len(dl)
+    if sc.get("crs_pair"):
+        # the target locations in the source's reference system (one call on whole coordinate columns)
+        from pyproj import Transformer
+        tx, ty = Transformer.from_crs(sc["crs_pair"][1], sc["crs_pair"][0]).transform(dl[:, 0], dl[:, 1])
+        dl = np.column_stack([tx, ty])
+        # (large coordinates: distances relative to a nearby origin)
+        c0 = sl.mean(axis=0)
+        sl, dl = sl - c0, dl - c0
     bits = sc["mbits"]
     smask_flat = np.array([bits[i % len(bits)] for i in range(ns)]) if sc["smask"] == "partial" else np.zeros(ns, bool)
     if smask_flat.all():
@@ -311,7 +349,7 @@ def execute(sc):
                     v("regrid-linear", "masked-inside", f"publication {k}: target {j} strictly inside the hull is masked; {short(sc)}")
                     break
                 continue
-            near = fsk[np.abs(d2k[j] - dmink[j]) <= 1e-12]
+            near = fsk[np.abs(d2k[j] - dmink[j]) <= (1e-12 if not sc.get("crs_pair") else 1e-6 * max(1.0, dmink[j]))]
             if sc["method"] == "nearest":
                 if not np.any(np.isclose(gflat[j], near, rtol=1e-12, atol=1e-9)):
                     v("regrid-identity" if sc["rel"] == "relayout" else "regrid-nearest", "value",
@@ -344,5 +382,7 @@ def res(sc, viol, nd, ran):
     flags = [sc["src"].get("rev"), sc["src"].get("order"), sc["dst"].get("rev"), sc["dst"].get("order")]
     nt = ran and nd >= 4 and (sc["smask"] == "partial" or sc["dmask"] == "partial" or any(f in (True, "C") for f in flags))
     cls = f"{sc['method']}:{sc['src']['type']}->{sc['dst']['type']}"
-    return {"violations": viol, "digest": digest_of(sc), "nontrivial": nt, "probes": {}, "faults": {}, "sig": cls,
+    return {"violations": viol, "digest": digest_of(sc), "nontrivial": nt,
+            "probes": {"links_between_reference_systems": int(bool(sc.get("crs_pair"))),
+                       "reprojected_targets_over_1024": int(bool(sc.get("crs_pair")) and nd > 1024)}, "faults": {}, "sig": cls,
             "cls": cls, "sim_hours": sc["npub"], "outcome": {"class": cls, "targets": nd}}
